@@ -17,7 +17,7 @@ for g in ("water", "gas", "oil", "reservoir", "fluid", "flowprops", "forecast", 
 PY
 cp coq/Props/*.v $D/
 cd $D
-order="Gen_water Gen_gas Gen_oil Gen_reservoir Gen_fluid Gen_flowprops Gen_forecast Gen_plotting Gen_fitpressure C01_matrix C12_blackoil C06_root C07_gas C12_spivey C12_viscosity"
+order="Gen_water Gen_gas Gen_oil Gen_reservoir Gen_fluid Gen_flowprops Gen_forecast Gen_plotting Gen_fitpressure C01_matrix C12_blackoil C06_root C07_gas C12_spivey C12_viscosity C04_step_system C04_time_loop C04_end_to_end C01_maxprinciple C01_relaxation C17_shift"
 for f in $order; do [ -f $f.v ] && coqc -q -Q ../../coq/Lib BBLib -Q . BBRun $f.v >/dev/null 2>&1 || echo "compile failed: $f"; done
 for f in C*.v; do b=${f%.v}; [ -f $b.vo ] || coqc -q -Q ../../coq/Lib BBLib -Q . BBRun $f >/dev/null 2>&1 || echo "compile failed: $b"; done
 # ONLY="C02_mesh C05_interpolator ..." re-checks just those files and replaces their lines in the summary
